@@ -403,7 +403,8 @@ def handle (op : String) (j : Json) : Option (Except String Json) :=
   | "blt_load" => some do
     let ls ← (← j.getObjVal? "lines").getArr?
     let lines ← ls.toList.mapM lineOfJson
-    pure (Json.mkObj [("loaded", resJson docJson (Blt.loadBlt lines))])
+    let oneplus := (j.getObjValAs? Bool "oneplus").toOption.getD false
+    pure (Json.mkObj [("loaded", resJson docJson (Blt.loadBltWith oneplus lines))])
   | _ => Stv.handleStv op j
 
 end VL.Drv.C19
